@@ -442,4 +442,16 @@ theorem generated_stringContainsAnySubStrs_eq (s : Bytes) (l : List Bytes) :
     simp only [List.find?, firstSubStr]
     cases h : isInfix a s <;> simp [ih]
 
+/-- the body of `(*Response).Record` as the translator renders it from the current source
+(`Generated/BodiesFailed.lean`; the two time stamps are declared not modelled): `RawResult` and
+`Result` become the recorded bytes and `Failed` is set exactly as `Resp.record` says (an
+`OperationError` with the input, the output and the first failure string found; untouched when
+none is found), for every response and every output -/
+theorem generated_record_eq (r : Resp) (raw0 b : Bytes) :
+    Gen.Bodies.Failed.record r.input r.fwc raw0 r.result r.failed b
+      = (b, (r.record b).result, (r.record b).failed) := by
+  unfold Gen.Bodies.Failed.record Resp.record
+  simp only [generated_stringContainsAnySubStrs_eq]
+  cases h : firstSubStr b r.fwc <;> simp
+
 end Scrapli.Failed.C13
